@@ -1,9 +1,10 @@
-CONSTANT P = 5
+CONSTANT P = 17
 CONSTANT ALPHA = 3
-CONSTANT GEN = 2
-CONSTANT DropKind = "expo"
+CONSTANT GEN = 3
+CONSTANT DropKind = "ra"
 CONSTANT DropIdx = 3
-CONSTANT Cases <- CasesExpo
+CONSTANT Cases <- CasesRa
+CONSTANT Sel = {}
 INIT InitRows
 NEXT NextRows
 INVARIANT Satisfied
